@@ -50,7 +50,7 @@ Definition del_pending (o : opst) : bool :=
 Definition at_fwd (o : opst) : bool := match opc o with PFwd => true | _ => false end.
 Definition ready_del (o : opst) : bool :=
   is_delete o && match opc o with PUmsyncReplied | PFwd => true | _ => false end.
-Definition scan_holder (s : scanpos) : bool := match s with SRestore _ _ => true | _ => false end.
+Definition scan_holder (s : scanpos) : bool := scan_holding s.
 
 (* ---------- the invariant ---------- *)
 Record Wf (o : opst) : Prop := {
